@@ -68,6 +68,7 @@ type coin struct {
 type rule struct {
 	fn      string // substring of a function name that must be on the caller's stack
 	read    bool   // applies to read transactions (else to write transactions)
+	readEnd bool   // applies to the end (Rollback) of read transactions
 	skip    int    // let this many matching transactions pass first
 	hit     chan struct{}
 	release chan struct{}
@@ -81,6 +82,14 @@ type gate struct {
 	rules []*rule
 	// compatibility with the single-rule use
 	hit chan struct{}
+}
+
+func (g *gate) armReadEnd(fn string, skip int) *rule {
+	r := &rule{fn: fn, readEnd: true, skip: skip, hit: make(chan struct{}), release: make(chan struct{})}
+	g.mu.Lock()
+	g.rules = append(g.rules, r)
+	g.mu.Unlock()
+	return r
 }
 
 func (g *gate) armRule(fn string, skip int, read bool) *rule {
@@ -115,10 +124,25 @@ func (g *gate) open() {
 }
 
 func (g *gate) pass(read bool) {
+	if read {
+		g.passKind(1)
+	} else {
+		g.passKind(0)
+	}
+}
+
+// kind: 0 = begin of a write transaction, 1 = begin of a read transaction, 2 = end of a read transaction
+func (g *gate) passKind(kind int) {
 	g.mu.Lock()
 	var cand []*rule
 	for _, r := range g.rules {
-		if !r.open && !r.held && r.read == read {
+		k := 0
+		if r.readEnd {
+			k = 2
+		} else if r.read {
+			k = 1
+		}
+		if !r.open && !r.held && k == kind {
 			cand = append(cand, r)
 		}
 	}
@@ -152,12 +176,28 @@ func (g *gate) BeginTx() (mwdb.DBTransaction, error) {
 
 func (g *gate) BeginReadTx() (mwdb.ReadTransaction, error) {
 	g.pass(true)
-	return g.DB.BeginReadTx()
+	tx, err := g.DB.BeginReadTx()
+	if err != nil {
+		return tx, err
+	}
+	return &gateRTx{ReadTransaction: tx, g: g}, nil
+}
+
+// gateRTx lets a rule hold a goroutine at the END of a read transaction (mwdb.View defers Rollback).
+type gateRTx struct {
+	mwdb.ReadTransaction
+	g *gate
+}
+
+func (t *gateRTx) Rollback() error {
+	err := t.ReadTransaction.Rollback()
+	t.g.passKind(2)
+	return err
 }
 
 func onStack(fn string) bool {
 	pcs := make([]uintptr, 48)
-	n := runtime.Callers(3, pcs)
+	n := runtime.Callers(2, pcs)
 	fr := runtime.CallersFrames(pcs[:n])
 	for {
 		f, more := fr.Next()
